@@ -400,7 +400,7 @@ pub fn run(ctx: &Ctx, model: &mut Model, rep: &mut Report) {
     // size ladder (subprocesses): below the recorded thresholds of finding D18 nothing may abort
     let d18_open = open.iter().any(|o| o == "D18");
     let ladder: Vec<(&str, usize)> = if ctx.thorough {
-        vec![("siblings", 100), ("siblings", 1000), ("siblings", 5000), ("items", 1000), ("items", 5000), ("headings", 1000), ("headings", 5000), ("nested-lists", 10), ("nested-lists", 100), ("nested-lists", 300), ("nested-quotes", 100), ("nested-quotes", 1000), ("long-line", 100000)]
+        vec![("siblings", 100), ("siblings", 1000), ("siblings", 2000), ("items", 1000), ("items", 2000), ("headings", 1000), ("headings", 2000), ("nested-lists", 10), ("nested-lists", 100), ("nested-lists", 500), ("nested-quotes", 100), ("nested-quotes", 1000), ("long-line", 100000)]
     } else {
         vec![("siblings", 1000), ("items", 1000), ("headings", 1000), ("nested-lists", 100), ("nested-quotes", 100), ("long-line", 20000)]
     };
